@@ -52,8 +52,13 @@ def descTable : String := "%s"
     that only `init` calls, and the caller-less caching `ResolveFields` under its own lock — nothing on the
     encode / size / decode paths -/
 def sharedWrites : List String := %s
+/-- full normalised text of every function and package-level declaration of `internal/defs` /
+    `internal/reflect` (hooks aside) that none of the fingerprints above, no table translation and no
+    protocol fact looks at: the small predicates and helpers the model mirrors by hand -/
+def residualDefs : String := "%s"
+def residualReflect : String := "%s"
 end Frugal.Skeleton
 """ % (sk["decoderSkeleton"], sk["encoderSkeleton"], sk["resolverSkeleton"], sk["descTableSkeleton"],
-       _re.search(r"  sharedWriteSiteList := (\[.*\])", src).group(1))
+       _re.search(r"  sharedWriteSiteList := (\[.*\])", src).group(1), sk["residualDefsSkeleton"], sk["residualReflectSkeleton"])
 open(os.path.join(V, "lean/Frugal/Skeleton.lean"), "w").write(SK)
 print("wrote Skeleton.lean")
